@@ -61,6 +61,10 @@ def formulas(x, y, a=None, z=None):
         "c2": lambda: x - y >= -1,
         "c3": lambda: (x + 2 * y).eq(2),
         "c4": lambda: x ** 2 + y ** 2 <= 4,
+        # constraints that bring NEW variables into the model
+        "c5": lambda: a + x <= 4,
+        "c6": lambda: z >= 1,
+        "c7": lambda: a + z + y <= 6,
     }
     return objs, cons
 
@@ -332,6 +336,10 @@ DRIVERS = {
     "free-then-bounded": dict(roots=[(("init", "free"), ("min", "Q")), (("init", "free"), ("min", "Q"), ("st", "c1"))],
                               menu=[("xub", 0.5), ("xub", None), ("ylb", 3.0), ("ylb", None), S("auto"), S("L-BFGS-B"), S("SLSQP"),
                                     S("trust-constr"), ("read",)], depth=None),
+    # constraints (single and in lists, in both list positions) that introduce variables the warm model has not seen
+    "new-variables-in-constraints": dict(roots=[(("max", "L1"), ("st", "c1"))], max_cons=4,
+                                         menu=[("stl", ("c5", "c2")), ("stl", ("c2", "c5")), ("st", "c6"), ("stl", ("c6", "c7")),
+                                               ("stl", ("c7", "c2")), S("auto"), S("SLSQP"), ("read",)], depth=None),
     # which method built the cache first: derivative-free methods need no gradient, Hessian methods add one lazily
     "method-order": dict(roots=[(("max", "Q"),), (("max", "N"), ("st", "c1")), (("min", "N"),)],
                          menu=[S("Nelder-Mead"), S("COBYLA"), S("Powell"), S("L-BFGS-B"), S("SLSQP"), S("trust-constr"), S("auto"),
